@@ -142,7 +142,7 @@ func c15Prop(c *Ctx) {
 
 func init() {
 	props["C15"] = c15Prop
-	corrs["C15"] = func(c *Ctx) { linkCorr(c); restoreCorr(c); fragCorr(c) }
+	corrs["C15"] = func(c *Ctx) { linkCorr(c); restoreCorr(c); fragCorr(c); fragCorrMalformed(c) }
 	replays["C15"] = func(c *Ctx, raw json.RawMessage) (bool, string) {
 		var in c15Input
 		if err := json.Unmarshal(raw, &in); err != nil {
